@@ -626,6 +626,10 @@ package db
 //@ requires len(exactMatchKeyElement) == 1 && len(wildcardKeyElement) == 1 && !fresh(exactMatchKeyElement) && !fresh(wildcardKeyElement)
 //@ call rdbdriver.findMapInSortedData#0 ghost n = n; offs = offs; idx = idx; roffs = roffs; ridx = ridx
 //@ before RDB.FindFirst#0 assert[all-labels] len(keys) == n + 1
+// (stated piecewise -- length and type bytes, name bytes, element -- then as a whole: each piece is a small goal)
+//@ before assign#8 assert[new-key-head] len(key) == len(old(domain)) - cur(domain, old(domain)) + 3 && key[0] == mtype[0] && key[1] == mtype[1]
+//@ before assign#8 assert[new-key-name] forall(j, 0, len(old(domain)) - cur(domain, old(domain)), key[2+j] == old(domain)[cur(domain, old(domain))+j])
+//@ before assign#8 assert[new-key-kind] key[len(key)-1] == ite(cur(domain, old(domain)) == 0, exactMatchKeyElement[0], wildcardKeyElement[0])
 //@ before assign#8 assert[new-key] mapkey(key, mtype, old(domain), cur(domain, old(domain)), exactMatchKeyElement[0], wildcardKeyElement[0])
 //@ before assign#8 assert[private] fresh(key) && ref(key) != ref(k)
 //@ loop 0 invariant[pos] ref(domain) == ref(old(domain)) && cur(domain, old(domain)) >= 0 && len(domain) == len(old(domain)) - cur(domain, old(domain)) && len(domain) >= 1 && 0 <= idx[cur(domain, old(domain))] && idx[cur(domain, old(domain))] <= n && offs[idx[cur(domain, old(domain))]] == cur(domain, old(domain))
